@@ -26,20 +26,56 @@ def rpo(fn, start=None):
     return order
 
 
+def _atoms(cond, truth, depth=0):
+    """Disjunctive normal form of `cond == truth`: a list of alternatives, each a list of (atomic cond, truth).
+    a && b true -> [[a,b]];  a && b false -> [[!a], [a, !b]]  (short-circuit order)."""
+    if depth > 6:
+        return [[]]
+    if cond.k == "bin" and cond.op in ("&&", "||"):
+        conj = (cond.op == "&&") == truth      # both operands have value `truth`
+        a, b = cond.kids
+        if conj:
+            out = []
+            for x in _atoms(a, truth, depth + 1):
+                for y in _atoms(b, truth, depth + 1):
+                    out.append(x + y)
+            return out[:8]
+        # decided by a alone, or a has the other value and b decides
+        out = list(_atoms(a, truth, depth + 1))
+        for x in _atoms(a, not truth, depth + 1):
+            for y in _atoms(b, truth, depth + 1):
+                out.append(x + y)
+        return out[:8]
+    if cond.k == "un" and cond.op == "!":
+        return _atoms(cond.kids[0], not truth, depth + 1)
+    return [[(cond, truth)]]
+
+
 def branch_edges(block):
-    """For a two-way conditional block: [(succ_id, cond_node, truth)], else [(succ_id, None, None)]"""
+    """For a two-way conditional block: [(succ_id, alternatives)] where alternatives is a list of lists of
+    (atomic cond, truth); otherwise [(succ_id, [[]])].
+    clang reports the whole `a && b` as the terminator condition.  If this block itself evaluates the right
+    operand (if/while/for conditions), the branch is decided by that operand alone; if the block is a pure
+    join of the short-circuit arms (do-while conditions), the branch is decided by the whole expression."""
     t = block.term
     out = []
     if t is not None and block.cond is not None and len(block.succs) == 2 and t.k != "switch":
         c = block.cond
-        # clang reports the whole `a && b` as the condition of the block that evaluates b
+        elem_ids = set(e.id for e in block.elems)
         while c.k == "bin" and c.op in ("&&", "||"):
-            c = c.kids[1]
-        out.append((block.succs[0], c, True))
-        out.append((block.succs[1], c, False))
+            rhs = c.kids[1]
+            probe = rhs
+            while probe.k == "un" and probe.op == "!":
+                probe = probe.kids[0]
+            if probe.id in elem_ids or any(x.id in elem_ids for x in probe.walk()):
+                c = rhs
+            else:
+                break
+        out.append((block.succs[0], _atoms(c, True)))
+        out.append((block.succs[1], _atoms(c, False)))
     else:
         for s in block.succs:
-            out.append((s, None, None))
+            out.append((s, [[]]))
     return out
 
 
@@ -77,14 +113,28 @@ def forward(fn, init, transfer, join, edge=None, start=None, max_iter=200000):
         if dead:
             continue
         OUT[b] = st
-        for (s, cond, truth) in branch_edges(blk):
+        for (s, alts) in branch_edges(blk):
             if s < 0:
                 continue
             ns = st
             if edge is not None:
-                ns = edge(st, blk, s, cond, truth)
-                if ns is None:
+                results = []
+                for atoms in alts:
+                    r = st
+                    if not atoms:
+                        r = edge(st, blk, s, None, None)
+                    else:
+                        for (cond, truth) in atoms:
+                            r = edge(r, blk, s, cond, truth)
+                            if r is None:
+                                break
+                    if r is not None:
+                        results.append(r)
+                if not results:
                     continue
+                ns = results[0]
+                for r in results[1:]:
+                    ns = join(ns, r)
             if s in IN:
                 j = join(IN[s], ns)
                 if j == IN[s]:
